@@ -62,7 +62,7 @@ func (c *Client) Produce(args ProduceArgs) (enc.Name, error) {
 	}
 
 	// TODO: sign the data
-	basename := append(args.Name, enc.NewVersionComponent(version))
+	basename := append(args.Name[:len(args.Name):len(args.Name)], enc.NewVersionComponent(version))
 	signer := sec.NewSha256Signer()
 
 	// use a transaction to ensure the entire object is written
